@@ -297,13 +297,13 @@ class Ctx(object):
         (fewer hypotheses unsat => all unsat), then the full set briefly."""
         t0 = time.time()
         try:
-            r = self.qf_solver.check(*extra)
+            r = guarded_check(self.qf_solver, self.cfg.branch_timeout_ms, *extra)
             if r == z3.unsat:
                 return r
             if len(self.facts) == len(self.qf_solver.assertions()):
                 return r
             self.solver.set('timeout', self.cfg.quant_branch_timeout_ms)
-            r2 = self.solver.check(*extra)
+            r2 = guarded_check(self.solver, self.cfg.quant_branch_timeout_ms, *extra)
             self.solver.set('timeout', self.cfg.branch_timeout_ms)
             if r2 == z3.unsat:
                 return r2
@@ -425,7 +425,7 @@ class Ctx(object):
         s.set('timeout', self.cfg.prove_timeout_ms)
         try:
             s.add(z3.Not(cond))
-            r = s.check()
+            r = guarded_check(s, self.cfg.prove_timeout_ms)
             if r == z3.unsat:
                 col.record(name, kind, PROVED, seconds=time.time() - t0, src=src)
                 return
@@ -487,9 +487,9 @@ class Ctx(object):
                     nice.append(z3.Or(z3.And(c >= 32, c <= 126), c == 10, c == 9))
             elif kind == 'int':
                 nice.append(z3.And(payload >= -2, payload <= 4 * N))
-        r = s2.check(*nice)
+        r = guarded_check(s2, self.cfg.prove_timeout_ms, *nice)
         if r != z3.sat:
-            r = s2.check()
+            r = guarded_check(s2, self.cfg.prove_timeout_ms)
         if r == z3.sat:
             return self.extract_model(s2.model())
         return None
@@ -524,6 +524,24 @@ class Ctx(object):
 
     def register_input(self, name, kind, payload):
         self.inputs.append((name, kind, payload))
+
+
+def guarded_check(solver, timeout_ms, *extra):
+    """solver.check with a hard stop: z3's own (soft) timeout is not honoured inside some quantifier-instantiation loops, so
+    a watchdog thread interrupts the context when the query runs for more than twice its budget (+3 s).  An interrupted
+    query answers `unknown`, like a timed-out one."""
+    import threading
+    t = threading.Timer(2.0 * timeout_ms / 1000.0 + 3.0, solver.ctx.interrupt)
+    t.daemon = True
+    t.start()
+    try:
+        return solver.check(*extra)
+    except z3.Z3Exception as e:
+        if 'cancel' in str(e).lower() or 'interrupt' in str(e).lower():
+            return z3.unknown
+        raise
+    finally:
+        t.cancel()
 
 
 _CVC5 = '/usr/bin/cvc5'
